@@ -866,27 +866,33 @@ pub fn sentences<N: Nd>(nd: &mut N, ch: u8) {
     witness!(nd, have14.is_some() && k == 3, "sentence ending in a 14-bit value");
 }
 
-/// C15 literal: 4 symbolic events (contributing Control Change or poll, arbitrary times) on two
-/// channels interleaved into one scanner vs. split to two own scanners.
+/// C15 literal: both channels get a number selection (symbolic values), then 3 symbolic events
+/// (data entry MSB, data entry LSB, increment, or poll - at arbitrary non-decreasing times) on
+/// either channel, interleaved into one scanner vs. split to two own scanners.
 pub fn interleave<N: Nd>(nd: &mut N, c1: u8, c2: u8) {
     let timeout = any_t(nd);
     let mut both = Scanner::new(timeout.dur());
     let mut own1 = both;
     let mut own2 = both;
     let mut now = any_t(nd);
+    set_now(now.dur());
+    let (m1, l1, m2, l2) = (nd.u8_le(127), nd.u8_le(127), nd.u8_le(127), nd.u8_le(127));
+    check!(none2(&both.feed(&scc(c1, 99, m1))) && none2(&own1.feed(&scc(c1, 99, m1))), "C14 nothing is reported before a number is complete");
+    check!(none2(&both.feed(&scc(c2, 101, m2))) && none2(&own2.feed(&scc(c2, 101, m2))), "C14 nothing is reported before a number is complete");
+    check!(none2(&both.feed(&scc(c1, 98, l1))) && none2(&own1.feed(&scc(c1, 98, l1))), "C14 nothing is reported before a number is complete");
+    check!(none2(&both.feed(&scc(c2, 100, l2))) && none2(&own2.feed(&scc(c2, 100, l2))), "C14 nothing is reported before a number is complete");
     let mut reported = 0;
     let mut k = 0;
-    while k < 4 {
+    while k < 3 {
         let first = nd.bool();
-        let is_poll = nd.bool();
-        let which = nd.u8_le(7);
+        let kind = nd.u8_le(3);
         let d2 = nd.u8_le(127);
         let t = any_t(nd);
         nd.assume(now.le(t));
         now = t;
         set_now(now.dur());
         let c = if first { c1 } else { c2 };
-        if is_poll {
+        if kind == 3 {
             let o_both = both.poll(chv(c));
             let o_own = if first { own1.poll(chv(c)) } else { own2.poll(chv(c)) };
             check!(o_both == o_own, "C15 interleaved stream: poll reports what the channel's own scanner reports");
@@ -895,7 +901,11 @@ pub fn interleave<N: Nd>(nd: &mut N, c1: u8, c2: u8) {
                 reported += 1;
             }
         } else {
-            let m = cc(c, pn_controller(which), d2);
+            let m = match kind {
+                0 => scc(c, 6, d2),
+                1 => scc(c, 38, d2),
+                _ => scc(c, 96, d2),
+            };
             let o_both = both.feed(&m);
             let o_own = if first { own1.feed(&m) } else { own2.feed(&m) };
             check!(o_both == o_own, "C15 interleaved stream reports what the channel's own scanner reports");
@@ -906,7 +916,7 @@ pub fn interleave<N: Nd>(nd: &mut N, c1: u8, c2: u8) {
         }
         k += 1;
     }
-    witness!(nd, reported >= 1, "a report");
+    witness!(nd, reported >= 2, "two reports");
 }
 
 /// Witness twin: claims poll never reports.
